@@ -20,6 +20,13 @@ open CTV.Model.ChainCheck
 switches off in its `x509.VerifyOptions` literal (regenerated), and name chaining stays on. -/
 theorem verify_options_as_modelled : omittedChecksDisabled = true ∧ verifyFlag "DisableNameChecks" = false := by decide
 
+/-- The regenerated order of `ValidateChain`'s checks has the shape the model gives it: parsing first, the seven
+leaf filters, then `Verify`, then `chainsEquivalent`. -/
+theorem validate_order_as_modelled :
+    Gen.validateChainOrder.head? = some "parse" ∧ Gen.validateChainOrder.drop 8 = ["verify", "chainsEquivalent"] ∧
+    ∀ n ∈ ["notAfterStart", "notAfterLimit", "acceptOnlyCA", "rejectExpired", "rejectUnexpired", "rejectExtIds", "extKeyUsages"],
+      n ∈ (Gen.validateChainOrder.drop 1).take 7 := by decide
+
 /-- `CheckSignatureFrom` in words: the parent is not a v3 certificate without basic constraints, not a
 certificate whose basic constraints deny CA (unless the child carries the Entrust SPKI), its key usage — if
 present — allows certificate signing, its key algorithm is known, and the signature verifies. -/
